@@ -428,6 +428,15 @@ func (g *Gen) genCreateBatch() *eng.Tx {
 	if bs := g.boundaryStart(); bs != nil {
 		s = *bs
 		g.boundaryStartUsed = true
+		// the batch must be admissible to the basket it is aimed at: a project of an allowed class
+		if bk := g.boundaryBasket; bk != nil && !g.V.BasketClasses[bk.Id][c.Id] {
+			for _, x := range g.V.ProjectList {
+				if cx := g.V.Classes[x.ClassKey]; cx != nil && g.V.BasketClasses[bk.Id][cx.Id] && cx.CreditTypeAbbrev == bk.CreditTypeAbbrev && len(g.V.Issuers[cx.Key]) > 0 {
+					p, c = x, cx
+					break
+				}
+			}
+		}
 	}
 	e := g.date()
 	if bs := g.boundaryStartUsed; bs {
@@ -1058,6 +1067,7 @@ func (g *Gen) boundaryStart() *time.Time {
 	if t.Year() < 1 || t.Year() > 9999 {
 		return nil
 	}
+	g.boundaryBasket = bk
 	if os.Getenv("VERIF_DEBUG") != "" {
 		fmt.Printf("# DEBUG boundaryStart basket %s window=%v years=%d d=%s start=%s now=%s\n", bk.BasketDenom, c.StartDateWindow != nil, c.YearsInThePast, d, t, g.Now)
 	}
